@@ -258,7 +258,7 @@ def C03(ctx):
 
 def C12(ctx):
     ctx.rule = ("case = (stream kind: single link | 3-link chain | small pages) x (scenario: open, open+read-all, pcm_seek, pcm_seek_page, time_seek, time_seek_page, raw_seek, "
-                "pcm_seek_lap, time_seek_page_lap, raw_seek_lap, halfrate toggle, crosslap, seek+reads): the scenario is first run fault-free to count its read/seek/tell callback "
+                "pcm_seek_lap, time_seek_page_lap, raw_seek_lap, halfrate toggle, crosslap, seek+reads, ov_test+ov_test_open, 16-bit reads interleaved with seeks, time_seek_lap, pcm_seek_page_lap): the scenario is first run fault-free to count its read/seek/tell callback "
                 "invocations K; then for EVERY invocation index k < K (stratified to 300 per kind in quick when K is larger; all up to 4000 in thorough) x 5 fault kinds (read "
                 "error with errno, premature zero read, one-byte read, seek -1, tell -1) x {one-shot, persistent} it is re-run on a fresh handle with the fault planted at k; "
                 "evaluation = one faulted run judged: every return in the documented set; close callback not run before ov_clear and exactly once overall; a read error / "
@@ -267,7 +267,7 @@ def C12(ctx):
                 "1500 samples are bit-identical to the never-faulted reference; sanitizers and the CPU budget (hang) judge the rest; bucket = (scenario, fault kind, stream kind)")
     ctx.assumptions = TRUST_COMMON + ["faults are injected by the application-side callbacks; short, one-byte and premature-zero reads may legitimately end in success or EOF",
                                       "a handle opened while a short read hid part of the file is judged for safety and termination only (the statement promises recovery for failures after a successful open)"]
-    ctx.run("san", "vffault", "c12", _n(ctx.tier, 624, 9360), extra_src=SPEC, env_extra={"VH_CPU": "120"})
+    ctx.run("san", "vffault", "c12", _n(ctx.tier, 816, 12240), extra_src=SPEC, env_extra={"VH_CPU": "120"})
     return ctx.finish(min_evals=15000, min_buckets=120)
 
 
@@ -403,7 +403,7 @@ META.update({
                           "failed opens leave a zeroed handle and an unclosed source, no call exceeds its CPU budget; " + _SAN,
             "level_note": "Trusted: libogg, harness damage operators. A clean sanitizer run is not memory safety."},
     "C12": {"technique": "runtime monitor: exhaustive-by-index callback fault injection with error-surfacing, no-hidden-close and recovery-vs-reference oracles, under ASan+UBSan",
-            "level_text": "Held on the executions observed: every callback invocation index of 13 scenarios x 3 stream kinds x 5 fault kinds x one-shot/persistent (tens of thousands of faulted "
+            "level_text": "Held on the executions observed: every callback invocation index of 17 scenarios x 3 stream kinds x 5 fault kinds x one-shot/persistent (tens of thousands of faulted "
                           "runs per quick run): failures surface as error codes or EOF, nothing is closed behind the caller, nothing hangs, and after the fault clears seeks and reads equal a "
                           "never-faulted decode; " + _SAN,
             "level_note": "Trusted: harness callbacks and reference decode. Enumeration is exhaustive per scenario up to the stated per-kind cap."},
